@@ -68,6 +68,8 @@ func verifControlFieldsGood[T any](in any) map[string]T {
 const controlSrc = `package nodes
 
 import (
+	"bytes"
+	"encoding/json"
 	"sort"
 	"strings"
 
@@ -292,6 +294,49 @@ func (d verifControlVisibleData) Process() (int, error) {
 	return t, nil
 }
 
+// ---------------------------------------------------------------------------
+// NODE-10 / NODE-11
+
+type verifControlLeafBad struct {
+	version int
+	value   []int
+}
+
+func (l *verifControlLeafBad) Value() []int     { return l.value }
+func (l *verifControlLeafBad) State() NodeState { return Processed }
+func (l verifControlLeafBad) Version() int      { return l.version }
+func (l *verifControlLeafBad) Set(msg []byte) (bool, error) {
+	if string(msg) == "[]" && len(l.value) == 0 {
+		return false, nil // NODE-10: "unchanged" shortcut without a bump
+	}
+	if err := json.Unmarshal(msg, &l.value); err != nil { // NODE-11: decoded in place
+		return false, err
+	}
+	l.version++
+	return true, nil
+}
+
+type verifControlLeafGood struct {
+	version int
+	value   []int
+}
+
+func (l *verifControlLeafGood) Value() []int     { return l.value }
+func (l *verifControlLeafGood) State() NodeState { return Processed }
+func (l verifControlLeafGood) Version() int      { return l.version }
+func (l *verifControlLeafGood) verifControlCommit(v []int) {
+	l.value = v
+	l.version++
+}
+func (l *verifControlLeafGood) Set(msg []byte) (bool, error) {
+	var next []int
+	if err := json.NewDecoder(bytes.NewReader(msg)).Decode(&next); err != nil {
+		return false, err
+	}
+	l.verifControlCommit(next)
+	return true, nil
+}
+
 var _ *Struct[int, verifControlHiddenData]
 var _ *Struct[int, verifControlVisibleData]
 `
@@ -335,6 +380,30 @@ func runControls(c *props.Ctx, sp *ssa.Package, fns []*ssa.Function, ci *flow.Ca
 			msg = "rule recorded nothing on the good control"
 		}
 		c.R.Control(rule, "control:good", controlFile, v, ob.Holds, msg)
+	}
+	// NODE-10 / NODE-11 controls: two input-less leaves
+	if sp.Pkg.Scope().Lookup("verifControlLeafBad") != nil {
+		lb, lg := newCtl(), newCtl()
+		checkVersionedLeaves(c, lb, []leaf{{"nodes", "verifControlLeafBad", "Set"}})
+		checkVersionedLeaves(c, lg, []leaf{{"nodes", "verifControlLeafGood", "Set"}})
+		for _, rule := range []string{"NODE-10", "NODE-11"} {
+			v := ob.Holds
+			if len(lb.fired[rule]) > 0 {
+				v = ob.Violation
+			}
+			c.R.Control(rule, "control:bad", controlFile, v, ob.Violation, "seeded defect must be reported")
+			v = ob.Holds
+			if len(lg.fired[rule])+len(lg.und[rule]) > 0 || lg.held[rule] == 0 {
+				v = ob.Violation
+			}
+			c.R.Control(rule, "control:good", controlFile, v, ob.Holds, strings.Join(append(lg.fired[rule], lg.und[rule]...), "; "))
+		}
+		// the good leaf must not trip the older leaf rules either
+		v := ob.Holds
+		if len(lg.fired["NODE-1"])+len(lg.und["NODE-1"])+len(lg.fired["NODE-7"]) > 0 {
+			v = ob.Violation
+		}
+		c.R.Control("NODE-1", "control:good-leaf", controlFile, v, ob.Holds, strings.Join(append(lg.fired["NODE-1"], lg.und["NODE-1"]...), "; "))
 	}
 	// REFL-1 controls live in package refutil
 	if rsp := c.P.SSAPkg("refutil"); rsp != nil && rsp.Func("verifControlFieldsBad") != nil {
